@@ -582,6 +582,28 @@ Section Proofs.
      word stands in the text as one Word token. *)
   Definition lower_case (c : text) : Prop := to_lower c = c.
 
+  (* the three forms of the property text are accepted (the decision alone, no document) *)
+  Lemma listed_forms_accepts (HL : lower_fix) D d e w :
+    dict_nodup D -> In e D -> dialect_ok (edialect e) d = true ->
+    ( w = canon e
+      \/ (normalized (canon e) = canon e /\ lower_case (canon e) /\ w = capitalise (canon e) /\
+          Forall case_regular (firstn 1 (canon e)))
+      \/ (normalized (canon e) = canon e /\ lower_case (canon e) /\ w = upper (canon e) /\
+          Forall case_regular (canon e)) ) ->
+    accepts D d w = true.
+  Proof.
+    intros ND Hin Hd Hw.
+    destruct Hw as [->|[(Hn & Hlc & -> & Hr)|(Hn & Hlc & -> & Hr)]].
+    - now apply canonical_accepted.
+    - apply (variant_accepted D d e); try assumption.
+      + unfold SpellDecision.word_id. rewrite normalized_capitalise, Hn by assumption.
+        now apply lower_capitalise.
+      + rewrite lower_capitalise by assumption. unfold lower_case in Hlc. now rewrite Hlc.
+    - apply (variant_accepted D d e); try assumption.
+      + unfold SpellDecision.word_id. rewrite normalized_upper, Hn by assumption. now apply lower_upper.
+      + rewrite lower_upper by assumption. unfold lower_case in Hlc. now rewrite Hlc.
+  Qed.
+
   Theorem listed_accepted (HL : lower_fix) D d e src words sp w ls :
     dict_nodup D -> In e D -> dialect_ok (edialect e) d = true ->
     In sp words -> get_content sp src = Ok w ->
@@ -594,16 +616,7 @@ Section Proofs.
     lint_word D d src sp = Ok None /\ forall l, In l ls -> sl_span l = sp -> False.
   Proof.
     intros ND Hin Hd Hsp G Hw HL'.
-    assert (accepts D d w = true) as A.
-    { destruct Hw as [->|[(Hn & Hlc & -> & Hr)|(Hn & Hlc & -> & Hr)]].
-      - now apply canonical_accepted.
-      - apply (variant_accepted D d e); try assumption.
-        + unfold SpellDecision.word_id. rewrite normalized_capitalise, Hn by assumption.
-          now apply lower_capitalise.
-        + rewrite lower_capitalise by assumption. unfold lower_case in Hlc. now rewrite Hlc.
-      - apply (variant_accepted D d e); try assumption.
-        + unfold SpellDecision.word_id. rewrite normalized_upper, Hn by assumption. now apply lower_upper.
-        + rewrite lower_upper by assumption. unfold lower_case in Hlc. now rewrite Hlc. }
+    pose proof (listed_forms_accepts HL D d e w ND Hin Hd Hw) as A.
     pose proof (lint_word_accepted D d src sp w G A) as W. split; [assumption|].
     intros l Hl Hspan. apply (lint_doc_in D d src words ls HL' l) in Hl as (sp' & _ & B).
     pose proof B as B'. apply lint_word_cases in B' as (w' & _ & _ & E & _). rewrite Hspan in E. subst sp'.
